@@ -80,9 +80,9 @@ MIN_COUNTERS = {
 
 
 def plan(tier, seed):
-    total = 24000 if tier == 'quick' else 1_500_000
+    total = 16000 if tier == 'quick' else 1_200_000
     parts = 12 if tier == 'quick' else 16
-    secs = 45 if tier == 'quick' else 620
+    secs = 40 if tier == 'quick' else 600
     return [{'name': f'g{p}', 'mode': 'nrt', 'kind': 'g', 'first_case': f,
              'n': n, 'secs': secs, 'hard_timeout': secs + 150}
             for p, (f, n) in enumerate(split(total, parts))]
